@@ -177,7 +177,7 @@ def adaptive_skeleton(chk, pid, scheme, ham, max_steps, budget, descending=False
     y0 = np.array([W.var('y0_0')])
     rtol, atol, hmax, hmin = W.vars('rtol atol max_step min_step')
     tag = '%s%s%s' % (scheme, '_ham' if ham else '', '/descending' if descending else '')
-    ex = Explorer(max_paths=3000, time_budget_s=budget, max_decisions=150)
+    ex = Explorer(max_paths=3000 if budget <= 300 else 30000, time_budget_s=budget, max_decisions=150)
     ex.abs_by_branch = False
     with explore.activate(ex):
         ex.assume((t0 > tf) if descending else (t0 < tf))
@@ -448,7 +448,7 @@ def main():
     import hiten.algorithms.integrators.rk as rk
     thorough = chk.tier == 'thorough'
     chk.encode(rk._RK45._integrate_rk45, rk._RK45._integrate_rk45_ham, rk._DOP853._integrate_dop853, rk._DOP853._integrate_dop853_ham)
-    chk.bound(kernel_calls='adaptive loops unwound to %d kernel calls (paths needing more are cut there; their prefixes are still checked)' % (3 if thorough else 2),
+    chk.bound(kernel_calls='adaptive loops unwound to %s kernel calls (paths needing more are cut there; their prefixes are still checked)' % ('3 (RK45) / 2 (DOP853)' if thorough else '2'),
               grid='2 output nodes for the adaptive drivers, 3 for fixed-step and symplectic', state_dim='1 (adaptive skeleton), 2/6 elsewhere')
     chk.assume('step kernels, vector field and the helpers _select_initial_step/_error_scale/_pi_*_factor are uninterpreted functions constrained by their contracts '
                '(h_init in [min_step, max_step], scale > 0, factors in [0.2, 10]); 0 < min_step <= max_step, rtol, atol > 0')
@@ -461,7 +461,8 @@ def main():
     for scheme in ('rk45', 'dop853'):
         adaptive_skeleton(chk, 'C10/(3)', scheme, False, 1, 200, descending=True)
         for ham in (False, True):
-            adaptive_skeleton(chk, 'C10/(3)', scheme, ham, ms, 900 if thorough else 300)
+            # three kernel calls through DOP853's error-norm logic exceed 30000 paths: the thorough tier takes RK45 to three calls, DOP853 stays at two
+            adaptive_skeleton(chk, 'C10/(3)', scheme, ham, ms if scheme == 'rk45' else 2, 3000 if thorough else 300)
     return chk.finish()
 
 
